@@ -5,7 +5,8 @@ From Proofs Require Import RegexTotal RegexRoundTrip.
 From Spec Require Sem.
 From Proofs Require ResolveShape UnrollSem TotalRec.
 From Spec Require Lang RegexLang.
-From Proofs Require LangSound RegexLangSound.
+From Proofs Require LangSound RegexLangSound RegexFind ResolveOk.
+From Model Require Engine Scan.
 From Coq Require Import Arith.
 Local Open Scope N_scope.
 
@@ -76,6 +77,23 @@ Proof.
 Qed.
 Print Assumptions C14_regex_finds_its_language.
 
+(* From the written expression to what the engine reports, with nothing assumed about derivations or fuel:
+   for every regular expression proper, written down, parsed and resolved as the body of a find command, on
+   EVERY text the VM's `find all` returns (for every large enough step budget) a list of consecutively numbered
+   matches, each a non-empty located slice of the text that is a word of the expression. *)
+Theorem C14_find_all_reports_words :
+  forall d g e g' gs rc gs' text,
+  wf_disj d [] -> RegexLang.reg_disj d -> ResolveOk.gs_ok gs ->
+  parse_regexp (show_disj d) g = POk (e, g') ->
+  resolve_exprs (ECons e ENil) 0 gs = GOk (rc, gs') ->
+  exists F, forall fuel, (F <= fuel)%nat ->
+    exists M, Scan.find_matches fuel (compile rc 0) text true 0 0 0 = Scan.SOk M /\
+      map Scan.mnum M = seq 1 (length M) /\
+      Forall (fun m => (Scan.mstart m < Scan.mend m)%nat /\ (Scan.mend m <= length text)%nat /\
+                       Scan.mvalue m = sub text (Scan.mstart m) (Scan.mend m) /\ RegexLang.rd_lang d (Scan.mvalue m)) M.
+Proof. exact RegexFind.regex_find_all_lemma. Qed.
+Print Assumptions C14_find_all_reports_words.
+
 (* every other byte string between @/ and / gives a tree or an error, never a panic or a hang *)
 Theorem C14_regex_parser_total : forall re g, parse_regexp re g <> PCrash /\ parse_regexp re g <> PFuel.
 Proof.
@@ -145,3 +163,9 @@ Proof.
     constructor; [exact Hga|constructor; [exact Hgb|constructor]].
   - vm_compute. eexists _, _. reflexivity.
 Qed.
+
+(* ... and the capstone's hypotheses hold for it from the initial generator state *)
+Example C14_capstone_witness :
+  ResolveOk.gs_ok init_gstate /\
+  exists e g' rc gs', parse_regexp (show_disj ex_reg) 0 = POk (e, g') /\ resolve_exprs (ECons e ENil) 0 init_gstate = GOk (rc, gs').
+Proof. split; [exact ResolveOk.init_gs_ok|]. vm_compute. eexists _, _, _, _. split; reflexivity. Qed.
